@@ -29,10 +29,6 @@ static inline double bd_atan2(double y, double x)
   __CPROVER_assert(!(y == 0 && x == 0), "atan2 is not called with (0, 0)");
   double r;   /* any value allowed by the assumed contract */
   __CPROVER_assume(r >= -M_PI && r <= M_PI);
-#ifdef GV_EXCL_TINY_NEG   /* exclusion predicate of the finding "bearing == 2 pi": atan2 does not return a negative value
-                             of magnitude below 1e-9 (i.e. the target is not within 1e-9 rad below the +x axis) */
-  __CPROVER_assume(!(r < 0 && r > -1e-9));
-#endif
   gv_atan2_y = y;
   gv_atan2_x = x;
   gv_atan2_ret = r;
@@ -58,7 +54,12 @@ __CPROVER_ensures(gv_sqrt_ret >= 1e-6 ==> gv_atan2_y == yb - ya)
 __CPROVER_ensures(gv_sqrt_ret >= 1e-6 ==> gv_atan2_x == xb - xa)
 __CPROVER_ensures(*b__p >= 0)
 __CPROVER_ensures(*b__p < 2 * M_PI)
-__CPROVER_ensures(gv_sqrt_ret >= 1e-6 ==> (*b__p == gv_atan2_ret || *b__p == gv_atan2_ret + 2 * M_PI))
+/* the bearing is the atan2 value reduced to the half-open turn: s itself when s >= 0, s + 2 pi when s < 0 -- and when
+   that IEEE sum is the full turn 2 pi (s a tiny negative number) the direction is the zero direction.
+   (Round 1 demanded b == s + 2 pi also in that last case, which contradicts b < 2 pi: corrected, see report.) */
+__CPROVER_ensures(gv_sqrt_ret >= 1e-6 ==>
+                  (gv_atan2_ret >= 0 ? *b__p == gv_atan2_ret
+                   : gv_atan2_ret + 2 * M_PI < 2 * M_PI ? *b__p == gv_atan2_ret + 2 * M_PI : *b__p == 0))
 //@ entry bearing_distance
 GV_CANARY("bearing_distance entry");
 //@ end
